@@ -224,12 +224,20 @@ LoopAdmissible(st, c) == /\ \/ (c.op \in {"chmod_b", "chown_b"} /\ HasFlag(c, "F
 \* call), no chmod changes the mode of an entry that is a link before and after the call
 ChmodOps == {"chmod", "chmod_b", "chmod_seq"}
 LinkModesKept(pre, post) == \A p \in DOMAIN pre.fs \cap DOMAIN post.fs : (IsLink(pre.fs, p) /\ IsLink(post.fs, p)) => post.fs[p].mode = pre.fs[p].mode
+\* C10 "readlink(link) is a relative path such that cleaning dir(link)/readlink(link) gives readlink_abs(link)": every link that a
+\* successful symlink / move_p / copy (without follow) creates or relocates carries the navigation from its directory to its target
+\* as its text (states read back from the implementation record the text in `rt`; D11: a link to its own directory is exempt)
+TextOps == {"symlink", "move_p", "copy"}
+NewLinkTextsOK(pre, post) == \A p \in DOMAIN post.fs :
+   (IsLink(post.fs, p) /\ "rt" \in DOMAIN post.fs[p] /\ (p \notin DOMAIN pre.fs \/ pre.fs[p] # post.fs[p]) /\ post.fs[p].t # Parent(p))
+   => TextSettled(post.fs, p)
 JudgeStepO(pre, s, Own) ==
    LET c == s.c
        viol == IF s.same = "t" THEN "-" ELSE RepViolation(s.post)
    IN IF (c.aok = "f" /\ Ambiguous(c.a)) \/ (c.bok = "f" /\ Ambiguous(c.b)) THEN << <<"skip", "ambiguous-expansion">> >>
       ELSE LET o == Expected(pre, c, Own) IN
       IF c.op \in ChmodOps /\ s.same = "f" /\ viol = "-" /\ ~LinkModesKept(pre, AbsOf(s.post)) THEN << Sig(pre, c, s.r, o.res, "mode-of-a-link-altered") >>
+      ELSE IF c.op \in TextOps /\ s.r.o = "ok" /\ s.same = "f" /\ viol = "-" /\ ~NewLinkTextsOK(pre, AbsOf(s.post)) THEN << Sig(pre, c, s.r, o.res, "link-text-is-not-the-navigation-to-its-target") >>
       ELSE IF s.r.o = "Path::LinkLooping" /\ LoopAdmissible(pre, c) THEN << <<"ok", c.op, "linklooping">> >>
       ELSE IF s.r.o = "panic" THEN << Sig(pre, c, s.r, o.res, "panic") >>
       ELSE IF viol # "-" THEN << Sig(pre, c, s.r, o.res, "ILLFORMED:" \o viol) >>
